@@ -371,7 +371,15 @@ func c20HeldBeforeRegister(t *testing.T, in c20In, rng *vrng) (obs c20Obs) {
 		}
 	}
 	hsDone := make(chan struct{})
-	go func() { defer close(hsDone); svc.handleConnectReq(ls) }()
+	var gmu sync.Mutex
+	guard := func() {
+		if r := recover(); r != nil {
+			gmu.Lock()
+			obs.Panic = true
+			gmu.Unlock()
+		}
+	}
+	go func() { defer close(hsDone); defer guard(); svc.handleConnectReq(ls) }()
 	select {
 	case <-hit:
 	case <-hsDone:
@@ -382,7 +390,7 @@ func c20HeldBeforeRegister(t *testing.T, in c20In, rng *vrng) (obs c20Obs) {
 	_ = newMetadataStream(&hdr).WriteHeader(context.Background(), p2p.Header{})
 	st := &c04Stream{rd: bytes.NewReader(hdr.Bytes()), conn: conn, writeFail: -1}
 	stDone := make(chan struct{})
-	go func() { defer close(stDone); fh.handler(st) }()
+	go func() { defer close(stDone); defer guard(); fh.handler(st) }()
 	time.Sleep(time.Duration(in.DelayMs) * time.Millisecond)
 	close(gate)
 	for _, c := range []chan struct{}{hsDone, stDone} {
